@@ -183,7 +183,11 @@ fn app(w: &mut World, x: &Xfer, i: usize, slot: u32, st: &mut SideState, round: 
         }
     }
     if !st.eof && !st.failed && round >= sd.read_from_round {
-        for _ in 0..sd.reads_per_round {
+        for i in 0..sd.reads_per_round {
+            // a look-ahead that must not consume (and must report the same abort / EOF as the read)
+            if (round + slot as usize + i) % 3 == 0 {
+                w.apply(Op::Peek { s: slot, n: sd.rchunk.max(1) + (round % 2) });
+            }
             let r = w.apply(Op::Read { s: slot, n: sd.rchunk.max(1) })[0].clone();
             stat(w);
             if r == "ok data=-" {
